@@ -22,6 +22,129 @@ def build(params):
     return world
 
 
+# ---------------------------------------------------------------------------
+# one real endpoint against a scripted peer that acknowledges and refuses
+
+def run_refusals(params, known):
+    '''Every sequence (up to the depth) of peer reactions - acknowledge the next outstanding
+    segment, refuse transfer 1 / 2 / an unknown one, repeat the last acknowledgement - to an
+    endpoint whose user has queued one or two bundles.  After every reaction the send queue is
+    read through the bus: it must list exactly the ids queued and not yet reported finished,
+    and no id may be reported finished twice.'''
+    import itertools
+    from ..peer_world import PeerWorld, PATH, IFACE
+    from ..oracle import tcpclv4 as T
+    from ..world import Violation
+    bundles = params['bundles']
+    depth = params['depth']
+    menu = ('ack-next', 'refuse-1', 'refuse-2', 'refuse-9', 'ack-again')
+    violations = []
+    seen_kinds = set()
+    count = 0
+    outcomes = set()
+
+    def run(seq):
+        w = PeerWorld(dict(role=params['role'], seg_mru=4, tx_init=4))
+        w.peer_write(T.enc_contact(0) + T.enc_sess_init(0, 4, 1000, b'dtn://peer/'))
+        w.quiesce()
+        queued = []
+        parser = T.StreamParser()
+        outstanding = []     # (transfer id, cumulative length, flags) of segments R wrote, not yet acknowledged
+        last_ack = None
+        pos = 0
+
+        def absorb():
+            nonlocal pos
+            for msg in parser.feed(w.out_octets[pos:]):
+                if msg['kind'] == 'XFER_SEGMENT':
+                    prev = [o for o in outstanding if o[0] == msg['transfer_id']]
+                    total = (prev[-1][1] if prev else acked.get(msg['transfer_id'], 0)) + len(msg['data'])
+                    outstanding.append((msg['transfer_id'], total, msg['flags']))
+            pos = len(w.out_octets)
+        acked = {}
+        for hexdata in bundles:
+            res = w.bus_call(w.proc, PATH, 'send_bundle_data', bytes.fromhex(hexdata), iface=IFACE)
+            if res[0] == 'ok':
+                queued.append(str(res[1]))
+            w.quiesce()
+        absorb()
+        trail = []
+
+        def judge(step):
+            res = w.bus_call(w.proc, PATH, 'send_bundle_get_queue', iface=IFACE)
+            fins = [str(sig[1]) for sig in w.signals if sig[0] == 'send_bundle_finished']
+            found = []
+            for bid in set(fins):
+                if fins.count(bid) > 1:
+                    found.append(('transfer-finished-twice', 'id %s reported finished %d times' % (bid, fins.count(bid))))
+            if res[0] == 'ok':
+                got = sorted(str(x) for x in res[1])
+                want = sorted(b for b in queued if b not in fins)
+                if got != want and not w.r_closed():
+                    found.append(('send-queue-differs-from-bookkeeping', 'queue %r; queued %r, finished %r' % (got, queued, fins)))
+            if w.escaped:
+                found.append(('exception-escaped-callback', '%s: %s' % (w.escaped[-1][0], w.escaped[-1][2])))
+            if any(sig[0] == 'MARSHAL-ERROR' for sig in w.signals):
+                found.append(('signal-does-not-fit-signature', repr([sig for sig in w.signals if sig[0] == 'MARSHAL-ERROR'][:1])))
+            return [(k, '%s after peer reactions %r' % (d, trail[:step])) for (k, d) in found]
+        found = judge(0)
+        for (i, react) in enumerate(seq):
+            if found or w.r_closed():
+                break
+            trail.append(react)
+            if react == 'ack-next':
+                if not outstanding:
+                    break
+                (tid, total, flags) = outstanding.pop(0)
+                acked[tid] = total
+                last_ack = T.enc_ack(flags, tid, total)
+                w.peer_write(last_ack)
+            elif react == 'ack-again':
+                if last_ack is None:
+                    break
+                w.peer_write(last_ack)
+            else:
+                tid = int(react.split('-')[1])
+                outstanding[:] = [o for o in outstanding if o[0] != tid]
+                w.peer_write(T.enc_refuse(1, tid))
+            w.quiesce()
+            absorb()
+            found = judge(i + 1)
+        fins = tuple(sorted((sig[1], sig[3]) for sig in w.signals if sig[0] == 'send_bundle_finished'))
+        return found, trail, fins
+
+    for n in range(0, depth + 1):
+        for seq in itertools.product(menu, repeat=n):
+            (found, trail, fins) = run(seq)
+            if len(trail) != len(seq):
+                continue       # a prefix of this sequence already ended the run; counted there
+            count += 1
+            outcomes.add(fins)
+            for (kind, detail) in found:
+                if kind not in seen_kinds:
+                    seen_kinds.add(kind)
+                    v = Violation(PROP, 'dbus-view', kind, dict(), detail).as_dict()
+                    v['case'] = dict(role=params['role'], bundles=bundles, reactions=list(trail))
+                    violations.append(v)
+    kn, out_v = [], []
+    for v in violations:
+        ent = known.match(v) if known is not None else None
+        (kn if ent else out_v).append(dict(v, entry=ent) if ent else v)
+    return dict(name=params['name'], evaluations=count, nontrivial_keys=['%s:%r' % (params['name'], o) for o in sorted(outcomes)],
+                violations=out_v, known=kn, samples=[])
+
+
+def replay_case(body, verbose=False):
+    case = body['case']
+    print('peer reactions %r to an endpoint (%s) with bundles %r' % (case['reactions'], case['role'], case['bundles']))
+    from ..findings import KnownFindings
+    res = run_refusals(dict(name='replay', role=case['role'], bundles=case['bundles'], depth=len(case['reactions'])), KnownFindings())
+    hit = [v for v in res['violations'] if v['kind'] == body['violation']['kind']]
+    for v in res['violations']:
+        print(' observed %s: %s' % (v['kind'], v['detail'][:300]))
+    return 1 if hit else 0
+
+
 def _scen(name, scripts, dev_bound=0, weight=1, **over):
     params = dict(scripts=scripts, devs=DEVS if dev_bound else (), auto_pop=False)
     params.update(over)
@@ -44,6 +167,12 @@ def scenarios(tier):
     out.append(_scen('A1|B1+pop', {'A': [s1, pop1], 'B': [s1b]}, weight=40))
     out.append(_scen('len0|B:pop', {'A': [('send', '')], 'B': [pop1]}, weight=5))
     out.append(_scen('A1+A1+term', {'A': [s1, s1b, term], 'B': []}, weight=40))
+    depth = 4 if tier == 'thorough' else 3
+    for role in ('passive', 'active'):
+        for (label, bundles) in (('one-segment', [hexn(3)]), ('two-segments', [hexn(6)]), ('two-bundles', [hexn(2), hexn(5, 0xb0)])):
+            nm = 'refusals-%s-%s' % (role, label)
+            out.append(dict(name=nm, kind='enum', runner='run_refusals',
+                            params=dict(name=nm, role=role, bundles=bundles, depth=depth), weight=15))
     try:
         from .c13 import c18_udp_scenarios
         out.extend(c18_udp_scenarios(tier))
@@ -62,6 +191,7 @@ ASSUMPTIONS = [
     'D-Bus marshalling judged by a rule table re-stated from probes of real dbus-python 1.3.2 (self-test in setup)',
     'method calls are dispatched between event-loop iterations; queries are evaluated in every explored state',
     'workloads of at most two bundles per direction',
+    'scripted-peer part: every sequence of up to 3 (thorough 4) reactions from {acknowledge next segment, refuse transfer 1, 2 or an unknown one, repeat the last acknowledgement} against one, two-segment and two queued bundles, endpoint active and passive',
 ]
 
 RULE = ('explicit-state BFS over two real ContactHandler objects with user send/pop/terminate calls at every '
@@ -71,4 +201,14 @@ RULE = ('explicit-state BFS over two real ContactHandler objects with user send/
 
 
 def evidence(tier, seed, scens, results, wall_s):
-    return graph_evidence(PROP, tier, seed, scens, results, wall_s, ASSUMPTIONS, RULE)
+    graphs = [r for r in results if r and r.get('kind') == 'graph']
+    enums = [r for r in results if r and r.get('kind') == 'enum']
+    ev = graph_evidence(PROP, tier, seed, [sc for sc in scens if sc['kind'] == 'graph'], graphs, wall_s, ASSUMPTIONS, RULE)
+    cov = ev['coverage']
+    cov['evaluations'] = sum(r.get('evaluations', 0) for r in enums)
+    keys = set()
+    for r in enums:
+        keys.update(r.get('nontrivial_keys', []))
+    cov['distinct_nontrivial'] = len(keys)
+    cov['exhaustive'] = cov['exhaustive'] and len([r for r in results if r and r.get('kind') != 'error']) == len(results)
+    return ev
